@@ -29,6 +29,16 @@ func init() {
 		setField(r, rt, "Raw", Str{bytesOf(args[0])})
 		return r
 	})
+	// gjson.GetBytes on the empty document {}: nothing exists (zero Result);
+	// other documents are outside the stub
+	reg("github.com/tidwall/gjson.GetBytes", func(fr *frame, args []Value) Value {
+		e := fr.e
+		doc, ok := concStr(Str{bytesOf(args[0])})
+		if !ok || (doc != "{}" && doc != "") {
+			unsupported("gjson.GetBytes on a document other than {}")
+		}
+		return e.zero(e.namedType("github.com/tidwall/gjson", "Result"))
+	})
 	reg("(github.com/tidwall/gjson.Result).ForEach", func(fr *frame, args []Value) Value {
 		e := fr.e
 		e.stubSeq++
@@ -59,6 +69,8 @@ func init() {
 	})
 	reg("(*github.com/safing/portbase/database/accessor.JSONBytesAccessor).Set", func(fr *frame, args []Value) Value {
 		e := fr.e
+		// the real method reads the document through its receiver
+		fr.derefArg(args[0], "JSONBytesAccessor.Set")
 		e.stubSeq++
 		if e.branch(e.freshVar(fmt.Sprintf("jsonacc%d.ok", e.stubSeq), 0)) {
 			return Iface{}
